@@ -122,17 +122,29 @@ func evalVar(c vCase) *vMismatch {
 		if b("genv") {
 			root += "env: {E: genv}\n"
 		}
-		if b("gdot") {
-			root += "dotenv: ['.genv']\n"
-			files[".genv"] = "E=gdot\n"
+		if g := s("gdot"); g != "none" {
+			root += "dotenv: ['.genv1', '.genv2']\n"
+			files[".genv1"], files[".genv2"] = "OTHER=1\n", "OTHER=2\n"
+			if g == "first" || g == "both" {
+				files[".genv1"] = "E=gdot1\n"
+			}
+			if g == "second" || g == "both" {
+				files[".genv2"] = "E=gdot2\n"
+			}
 		}
 		root += "tasks:\n  target:\n"
 		if b("tenv") {
 			root += "    env: {E: tenv}\n"
 		}
-		if b("tdot") {
-			root += "    dotenv: ['.tenv']\n"
-			files[".tenv"] = "E=tdot\n"
+		if g := s("tdot"); g != "none" {
+			root += "    dotenv: ['.tenv1', '.tenv2']\n"
+			files[".tenv1"], files[".tenv2"] = "OTHER=1\n", "OTHER=2\n"
+			if g == "first" || g == "both" {
+				files[".tenv1"] = "E=tdot1\n"
+			}
+			if g == "second" || g == "both" {
+				files[".tenv2"] = "E=tdot2\n"
+			}
 		}
 		root += "    cmds:\n      - echo \"GOT=$E\"\n"
 		files["Taskfile.yml"] = root
